@@ -15,6 +15,14 @@ terms and on intermediate prefixes (the `_degree` slot caches, "non-polynomial" 
 solve, after the base term was used in an earlier question; degree / is_linear / LP-vs-NLP route /
 solve result must equal those of a fresh never-queried build and of the balanced / vectorised builds.
 
+Wrapper dimension: a sum S = Σ tᵢ that also exists as ONE vector / matrix node (x·x, x·y, c@x, x.sum(),
+(x**k).sum(), f(x).sum(), xᵀQx, ‖x‖₁, X.sum(), (a·x−y).sum()) is built as node, left-deep, balanced,
+vectorised and accumulated-from-the-constant, and wrapped: K−S, S−K, K+S, −S, k·S, S/k, (K−S)−K2,
+k·(K−S), K−k·S, S₁−S₂ …; every channel is observed for every build — evaluate, compiled value,
+gradient(), compile_gradient, compile_jacobian([e],V), degree / is_linear, get_all_variables, and a
+solve with the formula as objective (min or max, whichever is convex) and as constraint — and
+compared with the exact reference (ref_eval / dual numbers) and between builds.
+
 Tie to the Lean model (n ≤ 900): variables at both thresholds, gradient with the switch at both
 thresholds (structural), the three depth estimates, compiled IR + which builder ran.
 """
@@ -399,8 +407,11 @@ def formulas(rng, thorough):
     # all operators × all sizes
     core_fams = ["var", "sq", "un:sin", "un:atan", "vec:dot", "vec:ps", "param"]
     for f in (core_fams if thorough else [rng.choice(core_fams)]):
+        deep_ops = ops if thorough else rng.sample(ops, 2)  # quick: n = 900 for two of the four operators
         for op in ops:
             for n in sizes_val:
+                if n == 900 and op not in deep_ops:
+                    continue
                 out.append((f, op, n))
     if not thorough:
         for f in rng.sample(core_fams, 3):
@@ -573,6 +584,16 @@ def run(ctx) -> core.Report:
     pr = probe_vectorised_degree()
     if pr is not None:
         fails.append(pr)
+    # ---- wrapped sums: node vs accumulation under K−S, S−K, k·S, …; all channels incl. compile_jacobian, solve
+    for fam, fam2, w, n, fseed, solve, thr in wrapped_plan(rng, thorough):
+        r = wrapped_case(fam, fam2, w, n, fseed, solve, thr)
+        rep.histogram["wrapped"] = rep.histogram.get("wrapped", 0) + 1
+        rep.histogram["wrapped:" + w] = rep.histogram.get("wrapped:" + w, 0) + 1
+        if r is not None:
+            fails.append(r)
+        else:
+            rep.nontrivial.add(("wrapped", fam, fam2, w, n))
+    rep.histogram["wall_wrapped_s"] = round(time.time() - t_start, 1)
     # ---- history: degree questions asked while the accumulation is being built
     for fa, fb, k, op, n, fseed, where, thr in history_plan(rng, thorough):
         r = history_case(fa, fb, k, op, n, fseed, where, thr)
@@ -828,6 +849,268 @@ def history_plan(rng, thorough):
     return out
 
 
+
+# ----------------------------------------------------------------------------- wrapped sums (node vs accumulation)
+
+WRAPPERS = ["K-S", "S-K", "K+S", "S+K", "-S", "k*S", "S*k", "S/k", "(K-S)-K2", "k*(K-S)", "K-k*S", "-(K-S)",
+            "(S-K)*k", "K-(S+K2)", "S1-S2", "K-(S1+S2)"]
+
+
+def sum_families(n, rng, tag=""):
+    """name -> (terms tᵢ, the single node N with N = Σ tᵢ, monotone-increasing-and-convex on the box?)
+    over fresh bounded variables x, y ∈ [0.1, 1]ⁿ (m×m matrix for the matrix family)"""
+    from optyx import VectorVariable, MatrixVariable
+    from optyx.core import vectors as V
+    from optyx.core import matrices as M
+
+    x = VectorVariable("x" + tag, n, lb=0.1, ub=1.0)
+    y = VectorVariable("y" + tag, n, lb=0.1, ub=1.0)
+    cs = np.array([[0.5, 1.25, 2.0, 0.75, 1.5][i % 5] for i in range(n)])
+    m = min(n, 4)
+    Qm = np.array([[(1.0 if i == j else 0.0) + 0.125 * ((i + j) % 3) for j in range(m)] for i in range(m)])
+    xm = x[0:m] if m < n else x
+    X = MatrixVariable("X" + tag, 2, 2, lb=0.1, ub=1.0)
+    fams = {
+        "dot(x,x)": ([x[i] * x[i] for i in range(n)], V.DotProduct(x, x), True),
+        "x.dot(x)": ([x[i] * x[i] for i in range(n)], x.dot(x), True),
+        "dot(x,y)": ([x[i] * y[i] for i in range(n)], V.DotProduct(x, y), False),
+        "c@x": ([float(cs[i]) * x[i] for i in range(n)], cs @ x, True),
+        "lc": ([float(cs[i]) * x[i] for i in range(n)], V.LinearCombination(cs, x), True),
+        "x.sum()": ([x[i] for i in range(n)], x.sum(), True),
+        "ps2": ([x[i] ** 2 for i in range(n)], (x ** 2).sum(), True),
+        "ps3": ([x[i] ** 3 for i in range(n)], (x ** 3).sum(), True),
+        "ps0.5": ([x[i] ** 0.5 for i in range(n)], V.VectorPowerSum(x, 0.5), False),
+        "l1": ([gen.unary("abs", x[i]) for i in range(n)], V.L1Norm(x), True),
+        "es": ([x[i] * 0.5 - y[i] for i in range(n)], (x * 0.5 - y).sum(), False),
+        "qf": ([float(Qm[i, j]) * xm[i] * xm[j] for i in range(m) for j in range(m)], M.QuadraticForm(xm, Qm), True),
+        "X.sum()": ([X[i, j] for i in range(2) for j in range(2)], X.sum(), True),
+    }
+    for op, convex in (("exp", True), ("sin", False), ("cos", False), ("tan", False), ("log", False), ("sqrt", False),
+                       ("sinh", True), ("cosh", True), ("tanh", False), ("abs", True)):
+        fams[f"us:{op}"] = ([gen.unary(op, x[i]) for i in range(n)], V.VectorUnarySum(x, op), convex)
+    return fams
+
+
+def s_builds(terms, node):
+    from optyx.core.vectors import VectorExpression
+
+    out = {"node": node, "left": build_left("+", terms), "balanced": balanced("+", terms),
+           "vector": VectorExpression(terms).sum()}
+    if len(terms) <= 30:
+        out["right"] = build_right("+", terms)
+    return out
+
+
+def wrap(w, S, S2, K, K2, k):
+    """(expression, slope a of the affine map S ↦ W for the single-sum wrappers, else None)"""
+    from optyx.core.expressions import Constant
+
+    if w == "K-S": return K - S, -1.0
+    if w == "S-K": return S - K, 1.0
+    if w == "K+S": return K + S, 1.0
+    if w == "S+K": return S + K, 1.0
+    if w == "-S": return -S, -1.0
+    if w == "k*S": return k * S, k
+    if w == "S*k": return S * k, k
+    if w == "S/k": return S / k, 1.0 / k
+    if w == "(K-S)-K2": return (K - S) - K2, -1.0
+    if w == "k*(K-S)": return k * (K - S), -k
+    if w == "K-k*S": return K - k * S, -k
+    if w == "-(K-S)": return -(K - S), 1.0
+    if w == "(S-K)*k": return (S - K) * k, k
+    if w == "K-(S+K2)": return K - (S + K2), -1.0
+    if w == "S1-S2": return S - S2, None
+    if w == "K-(S1+S2)": return K - (S + S2), None
+    raise KeyError(w)
+
+
+def accumulated_from_constant(w, terms, K):
+    """the term-by-term loops a user writes for K−S / K+S: acc = K; acc = acc ∓ tᵢ"""
+    from optyx.core.expressions import Constant
+
+    if w not in ("K-S", "K+S"):
+        return None
+    acc = Constant(K)
+    for t in terms:
+        acc = (acc - t) if w == "K-S" else (acc + t)
+    return acc
+
+
+def arr(v):
+    return np.asarray(v, dtype=float).ravel()
+
+
+def wrapped_case(fam, fam2, w, n, fseed, solve, thr=None):
+    """None = all channels of all builds agree with the reference and with each other; else a failure dict"""
+    with Thresholds(thr):
+        return _wrapped_case(fam, fam2, w, n, fseed, solve, thr)
+
+
+_KNOWN_PRODUCT: list = []
+
+
+def _wrapped_case(fam, fam2, w, n, fseed, solve, thr):
+    """a failure dict, or None; a hit of the known finding F30 (and nothing else wrong) is returned with its kind"""
+    del _KNOWN_PRODUCT[:]
+    r = _wrapped_case_inner(fam, fam2, w, n, fseed, solve, thr)
+    if r is None and _KNOWN_PRODUCT:
+        return _KNOWN_PRODUCT[0]
+    return r
+
+
+def _wrapped_case_inner(fam, fam2, w, n, fseed, solve, thr):
+    import optyx.core.autodiff as AD
+    import optyx.core.compiler as C
+    from optyx import Problem
+    from optyx.core.expressions import get_all_variables
+
+    base = {"family": "wrapped", "fam": fam, "fam2": fam2, "wrapper": w, "n": n, "seed": fseed, "solve": solve, "thr": thr}
+    rng = core.Rng(fseed)
+    fams = sum_families(n, rng)
+    terms, node, convex = fams[fam]
+    terms2, node2, _ = fams[fam2]
+    K, K2, k = rng.choice([7.5, -2.25, 0.5, 12.0]), rng.choice([1.5, -0.75]), rng.choice([2.0, 0.5, -1.5, 3.0, -0.25])
+    S2forms = s_builds(terms2, node2)
+    builds = {}
+    slope = None
+    for bname, S in s_builds(terms, node).items():
+        e, slope = wrap(w, S, S2forms.get(bname, S2forms["left"]), K, K2, k)
+        builds[bname] = e
+    acc = accumulated_from_constant(w, terms, K)
+    if acc is not None:
+        builds["from-constant"] = acc
+    names = sorted({v.name for t in terms + (terms2 if slope is None else []) for v in get_all_variables(t)})
+    byname = {v.name: v for t in terms + terms2 for v in get_all_variables(t)}
+    V = [byname[nm] for nm in names]
+    rng.shuffle(V)
+    pt = {v.name: rng.randint(2, 7) / 8 + 1 / 16 for v in V}
+    x = np.array([pt[v.name] for v in V])
+    ref_e = builds["balanced"]
+    ref_v = ref_value(ref_e, pt)
+    probe = list(range(len(V))) if len(V) <= 12 else sorted(rng.sample(range(len(V)), 8))
+    ref_g = {j: ref_gradient(ref_e, pt, V[j].name) for j in probe}
+    if ref_v is None or any(g is None for g in ref_g.values()):
+        return None
+    scale = sum(abs(ref_value(t, pt) or 0.0) for t in terms) * (abs(k) + 1) + abs(K) + abs(K2)
+    want_vars = tuple(names)
+    deg0 = None
+    clear_caches()
+    for bname, e in builds.items():
+        def bad(what, **kw):
+            return dict(base, build=bname, what=f"{what} ({bname} build of {w} over {fam})", point=pt, **kw)
+
+        got, err = guarded(lambda: tuple(sorted(v.name for v in get_all_variables(e))))
+        if err or got != want_vars:
+            return bad("variable set differs", got=err or got[:8], want=want_vars[:8])
+        for nm, fn in (("evaluate", lambda: K_fl(e.evaluate(dict(pt)))),
+                       ("compiled value", lambda: K_fl(C.compile_expression(e, V)(x)))):
+            got, err = guarded(fn)
+            if err or not close(got, ref_v, scale):
+                return bad(f"{nm} differs from the reference", got=err or got, want=ref_v)
+        chans = {"compile_jacobian": lambda: arr(AD.compile_jacobian([e], V)(x))}
+        if n <= 60:
+            chans["compile_gradient"] = lambda: arr(C.compile_gradient(e, V)(x))
+        for nm, fn in chans.items():
+            got, err = guarded(fn)
+            if err or len(got) != len(V):
+                return bad(f"{nm} raised / has the wrong shape", got=err or len(got))
+            for j in probe:
+                if not close(float(got[j]), ref_g[j], scale, rtol=1e-7):
+                    return bad(f"{nm} differs from the true derivative", wrt=V[j].name, got=float(got[j]), want=ref_g[j])
+        for j in probe[:4]:
+            g, err = guarded(lambda: AD.gradient(e, V[j]))
+            gv = grad_value(g, pt) if g is not None else None
+            if err or (gv is not None and not close(gv, ref_g[j], scale, rtol=1e-7)):
+                return bad("gradient() differs from the true derivative", wrt=V[j].name, got=err or gv, want=ref_g[j])
+        d = read_degree(e)
+        # F26b: VectorExpressionSum / MatrixSum have no degree case → their forms are compared with themselves only
+        exempt = bname == "vector" or "X.sum()" in (fam, fam2) or "es" in (fam, fam2)
+        if not exempt:
+            if deg0 is None:
+                deg0 = (bname, d)
+            elif d != deg0[1]:
+                # optyx classifies a scalar product of two variables (xᵢ*xᵢ, xᵢ*yᵢ) as None ("non-polynomial for LP
+                # detection") while x·x / x·y / xᵀQx report 2: for the product families the degree itself is compared
+                # up to None ~ ≥2 (reported to the coordinator), is_linear always exactly
+                prodfam = bool({fam, fam2} & {"dot(x,x)", "x.dot(x)", "dot(x,y)", "qf"})
+                a, b = d, deg0[1]
+                compatible = prodfam and a[1] == b[1] and (a[0] is None) != (b[0] is None) and (a[0] or b[0]) >= 2
+                if compatible:
+                    # genuine clean-tree discrepancy, recorded as known finding F30 (is_linear agrees)
+                    kp = bad("degree differs between builds: scalar product None vs node 2",
+                             got=d, want=deg0[1], other=deg0[0])
+                    kp["kind"] = "scalar_product_degree_none"
+                    _KNOWN_PRODUCT.append(kp)
+                else:
+                    return bad("degree / is_linear differs between builds", got=d, want=deg0[1], other=deg0[0])
+    if not solve or slope is None or not convex:
+        return None
+    # ---- solve with the formula as objective (the convex direction) and as constraint
+    sols = {}
+    for bname, e in builds.items():
+        clear_caches()
+        prob = Problem().minimize(e) if slope > 0 else Problem().maximize(e)
+        sol, err = guarded(lambda: prob.solve())
+        if err:
+            return dict(base, build=bname, what=f"solve (objective) raised {err} on the {bname} build")
+        at = ref_value(ref_e, {nm: sol.values.get(nm, pt[nm]) for nm in pt})
+        sols[bname] = (str(sol.status), sol.objective_value, at)
+    first = next(iter(sols.items()))
+    for bname, (st, ov, at) in sols.items():
+        if st != first[1][0] or ov is None or abs(ov - first[1][1]) > 2e-3 * (1 + abs(first[1][1])) or \
+                (at is not None and abs(ov - at) > 2e-3 * (1 + abs(at))):
+            return dict(base, build=bname, what=f"solve with the formula as objective differs between builds ({bname} vs {first[0]})",
+                        got=(st, ov, at), want=first[1])
+    p0 = {nm: 0.4 for nm in pt}
+    rhs = ref_value(ref_e, p0)
+    sols = {}
+    for bname, e in builds.items():
+        clear_caches()
+        tgt = None
+        for v in V:
+            d = (v - 0.8) * (v - 0.8)
+            tgt = d if tgt is None else tgt + d
+        con = (e <= rhs) if slope > 0 else (e >= rhs)
+        sol, err = guarded(lambda: Problem().minimize(tgt).subject_to(con).solve())
+        if err:
+            return dict(base, build=bname, what=f"solve (constraint) raised {err} on the {bname} build")
+        vals = {nm: sol.values.get(nm) for nm in pt}
+        cv = ref_value(ref_e, vals) if all(v is not None for v in vals.values()) else None
+        sols[bname] = (str(sol.status), sol.objective_value, cv)
+    first = next(iter(sols.items()))
+    for bname, (st, ov, cv) in sols.items():
+        if st != first[1][0] or ov is None or abs(ov - first[1][1]) > 2e-3 * (1 + abs(first[1][1])):
+            return dict(base, build=bname, what=f"solve with the formula as constraint differs between builds ({bname} vs {first[0]})",
+                        got=(st, ov, cv), want=first[1], rhs=rhs)
+        if cv is not None and ((slope > 0 and cv > rhs + 1e-4 * (1 + abs(rhs))) or (slope < 0 and cv < rhs - 1e-4 * (1 + abs(rhs)))):
+            return dict(base, build=bname, what="solution violates the constraint built from the formula", got=cv, rhs=rhs)
+    return None
+
+
+def K_fl(v):
+    return K.fl(v)
+
+
+def wrapped_plan(rng, thorough):
+    """(family, second family, wrapper, n, seed, with solve)"""
+    names = list(sum_families(3, rng))
+    out = []
+    for i, f in enumerate(names):
+        ws = WRAPPERS if thorough else [WRAPPERS[(i + j * 5 + rng.randint(0, 15)) % len(WRAPPERS)] for j in range(2)] + \
+            [rng.choice(["K-S", "K+S", "S-K", "k*(K-S)"])]
+        for j, w in enumerate(ws):
+            n = rng.choice([2, 3, 4, 5]) if (thorough and j % 3) or (not thorough and j < 2) else rng.choice([12, 40])
+            out.append((f, rng.choice(names), w, n, rng.randint(0, 2 ** 31 - 1), n <= 5 and (thorough or j == 0),
+                        rng.choice([None, None, 3, 0])))
+    # node vs accumulation above the switch depth (derivative compilation is O(n²): few; the quick tier drives the
+    # explicit-stack paths with lowered thresholds at n = 100 instead)
+    for _ in range(6 if thorough else 2):
+        out.append((rng.choice(["dot(x,x)", "c@x", "ps3", "us:exp", "x.sum()", "us:log"]), "x.sum()",
+                    rng.choice(["K-S", "K+S", "S-K", "k*(K-S)", "-S"]), 401 if thorough else 100,
+                    rng.randint(0, 2 ** 31 - 1), False, None if thorough else rng.choice([3, 0])))
+    return out
+
+
 def probe_vectorised_degree():
     """(x+1).sum() / X.sum() must have the degree of their term-by-term accumulations"""
     from optyx import VectorVariable, MatrixVariable
@@ -977,6 +1260,11 @@ def replay(payload) -> bool:
     if f.get("family") == "probe":
         r = probe_vectorised_degree()
         print("probe:", r)
+        return r is None
+    if f.get("family") == "wrapped":
+        r = wrapped_case(f["fam"], f["fam2"], f["wrapper"], int(f["n"]), int(f["seed"]), bool(f["solve"]),
+                         None if f.get("thr") in (None, "None") else int(f["thr"]))
+        print("wrapped_case:", r)
         return r is None
     if f.get("family") == "history":
         r = history_case(f["famA"], f["famB"], int(f["k"]), f["op"], int(f["n"]), int(f["seed"]), set(f["where"]),
